@@ -1447,7 +1447,9 @@ class Interp:
 
     # ---- events -----------------------------------------------------------------------------------
     def emit(self, name, args, kwargs=None, result=None):
-        self.st.trace.append(Event(name, list(args), kwargs, result))
+        ev = Event(name, list(args), kwargs, result)
+        ev.heap = dict(self.st.heap)          # state at the event, for at_event(...) assertions
+        self.st.trace.append(ev)
 
     def opaque_call(self, name, args, kwargs, node, decl, recv=()):
         """A call that leaves the verified text.  One event; result constrained only by its declared type;
@@ -1547,6 +1549,8 @@ class Interp:
                 raise PyExc(VExc('TypeError', origin='cannot unpack None'))
             if isinstance(v, VTuple):
                 items = v.items
+            elif isinstance(v, VOpaque):
+                items = self.ctx.unbox(self, v, len(target.elts))
             elif self.is_list(v) and isinstance(self.cell(v).content, list):
                 items = self.cell(v).content
             else:
